@@ -350,6 +350,40 @@ def run(ctx):
             else:
                 rs = [y for y in walk(body) if y.get('kind') == 'CXXMemberCallExpr' and call_name(y) == 'resize' and canon(call_args(y)[0]) == v['name']]
                 ctx.check(bool(err) and bool(rs), R, key, c, 'error throws; the result is trimmed to the count', '%s: error not tested or the buffer is not trimmed to the bytes transferred' % nm)
+    # an exact-transfer function that delegates to a phosg wrapper: the wrapper must itself be exact, or the
+    # count it delivers must be compared with the request on a throwing path
+    for f in u.functions:
+        q = u.qualname(f)
+        if not q.startswith('phosg::') or q.count('::') != 1 or f.get('name') not in exact or body_of(f) is None:
+            continue
+        body = body_of(f)
+        for c in calls_named(body, tuple(exact)):
+            d = callee_decl(c, u)
+            if d is not None and d.get('_p') is not None and u.qualname(d).startswith('phosg::') and d.get('name') != f.get('name') or (d is not None and d.get('name') == f.get('name') and d.get('id') != f.get('id') and len(params_of(d)) != len(params_of(f))):
+                seen += 1
+                ctx.ok(R, '%s(%s)|delegates-to-%s' % (f.get('name'), ','.join(qtype(p) for p in params_of(f)), call_name(c)), c, 'delegates to the exact-transfer function phosg::%s' % call_name(c))
+        for c in calls_named(body, raw_names):
+            d = callee_decl(c, u)
+            if d is None or d.get('_p') is None or not u.qualname(d).startswith('phosg::'):
+                continue
+            seen += 1
+            sigs = ','.join(qtype(p) for p in params_of(f))
+            key = '%s(%s)|delegates-to-%s' % (f.get('name'), sigs, call_name(c))
+            v = enclosing(c, ('VarDecl',))
+            checked = False
+            if v is not None:
+                for x in walk(body):
+                    if x.get('kind') == 'IfStmt' and any(t.get('kind') == 'CXXThrowExpr' for t in walk(if_parts(x)[1])):
+                        for n_, p_ in atoms([Fact(if_parts(x)[0], True, x)]):
+                            r = relation(n_, p_)
+                            if r and r[1] in ('!=', '<') and (v['name'] in nf(r[0]) or v['name'] in nf(r[2])):
+                                checked = True
+            if checked:
+                ctx.ok(R, key, c, 'the count delivered by phosg::%s is compared with the request and a mismatch throws' % call_name(c))
+            elif v is None or not any(y.get('kind') in LOOPS for y in walk(body)):
+                ctx.bad(R, key, c, '%s hands the transfer to phosg::%s, which returns whatever a single call delivered (it trims the buffer to a short count), and does not compare the count with the request: a short read/write is returned as if complete' % (f.get('name'), call_name(c)))
+            else:
+                ctx.undecided(R, key, c, '%s uses phosg::%s inside a loop the rule does not read' % (f.get('name'), call_name(c)))
     ctx.require(seen >= 10, 'raw I/O call sites not found (%d)' % seen)
 
     # ---------------- R4
